@@ -116,7 +116,9 @@ def build_document(ex, spec):
         header += "@base <%s> .\n" % env["base"]
     tokens, expected, parts_all = [], [], []
     ti = 0
-    for gi, (subj, polist) in enumerate(spec["groups"]):
+    for gi, group in enumerate(spec["groups"]):
+        subj, polist = group[0], group[1]
+        gopts = group[2] if len(group) > 2 else {}
         if subj == "PREFIX":   # a directive line between statements: re-binds a prefix from here on
             pfx, ns = polist
             env["prefixes"][pfx] = ns
@@ -132,6 +134,9 @@ def build_document(ex, spec):
                 tokens.append(("obj", o_tok))
                 expected.append((s_exp, dict(cls="Property", val=p_exp["val"]), o_exp))
                 parts_all.append(dict(subj=s_parts, pred=p_parts, obj=o_parts, okind=obj["t"], skind=subj["t"], pkind=pred["t"]))
+                last = oi == len(objs) - 1 and pi == len(polist) - 1
+                if last and gopts.get("trailing_semicolon"):
+                    tokens.append(("punct", ";"))        # Turtle allows 'p o ; .'
                 tokens.append(("punct", "," if oi < len(objs) - 1 else (";" if pi < len(polist) - 1 else ".")))
     layout = spec["layout"]
     if len(layout) != len(tokens):
@@ -187,7 +192,7 @@ def _lits(m):
 def _lit_positions(m):
     """[(token index, triple parts)] of literal objects."""
     roles = m["roles"]
-    spec_objs = [o for s_, pol in m["spec"]["groups"] if s_ != "PREFIX" for _, objs in pol for o in objs]
+    spec_objs = [o for g in m["spec"]["groups"] if g[0] != "PREFIX" for _, objs in g[1] for o in objs]
     lits = _lits(m)
     out, oi, li = [], 0, 0
     for i, r in enumerate(roles):
@@ -355,7 +360,8 @@ def _lit(body, suffix="none", **kw):
 def _house_layout(groups):
     """One predicate-object pair per line, punctuation preceded by a blank (the style of the repo's test files)."""
     lay = []
-    for subj, polist in groups:
+    for group in groups:
+        subj, polist = group[0], group[1]
         lay.append(" ")
         for pi, (pred, objs) in enumerate(polist):
             lay.append(" ")
@@ -367,7 +373,7 @@ def _house_layout(groups):
 
 
 def _default_layout(groups):
-    n = sum(1 + sum(1 + 2 * len(objs) for _, objs in polist) for _, polist in groups)
+    n = sum(1 + sum(1 + 2 * len(objs) for _, objs in g[1]) for g in groups)
     lay = [" "] * n
     lay[-1] = "\n"
     return lay
@@ -414,7 +420,9 @@ def skeletons(tier):
         out.append(("int/%s/nl" % txt, dict(groups=groups, layout=[" ", " ", "\n", " ", " ", "\n"])))
     g_rebind = [(PN1, [(PN1, [PN1])]), ("PREFIX", ("e", "http://g.h/")), (PN1, [(PN1, [PN1])])]
     out.append(("rebind", dict(groups=g_rebind, layout=[" ", " ", " ", "\n", "\n", " ", " ", " ", "\n"])))
-    g_semi = [(PN1, [(PN1, [_lit([F])]), "TRAILING_SEMICOLON"])]
+    g_semi = [(PN1, [(PN1, [PN1])], {"trailing_semicolon": True})]
+    out.append(("trailing-semicolon", dict(groups=g_semi, layout=[" ", " ", " ", " ", "\n"])))
+    out.append(("trailing-semicolon/nl", dict(groups=g_semi, layout=[" ", " ", " ", "\n", "\n"])))
     g_reuse = [(PN1, [(PN1, [PN1])]), (PN1, [(PN1, [PN1, PN1])])]                   # names may repeat across statements
     for gname, groups in [("basic", g_basic), ("comma", g_comma), ("two", g_two), ("abs", g_abs), ("int", g_int), ("reuse", g_reuse)]:
         for lay in _variants(groups, 1 if tier == "quick" else 2):
